@@ -248,6 +248,7 @@ func runC11(r *vf.Run) {
 			}
 		}
 	})
+	racePass(r)
 	r.Floor("Prepare and direct path both used", r.Covered("paths") == 2)
 	r.Floor("too-few, exact and too-many argument lists all seen", r.Covered("argument_counts") == 3)
 }
